@@ -172,3 +172,27 @@ Section InitialSource.
     /\ gen_initial_site NN m = initial_site NN m.
   Proof. intros radius n f m. repeat split; reflexivity. Qed.
 End InitialSource.
+
+(* ---- binary64: the probed INITIAL states (kinds without "@") start where the translated from_family / from_wyckoff put
+   them: ratio 1, the family's angle, both site coordinates at -0.5 + 0.5 / (number of copies), orientation 0 *)
+Definition starts_at_source (gs : list gen_group) (s : gen_state) : bool :=
+  if has_at (gs_kind s) then true else
+  match probe_family gs s with
+  | Some f =>
+      let '(x, y, a) := gen_initial_site NumF (N.of_nat (gs_copies s)) in
+      let expect (h : gen_handle) : option float :=
+        match gh_moves h with
+        | [p] => if String.eqb p "/cell/ratio" then Some (gen_initial_ratio NumF)
+                 else if String.eqb p "/cell/angle" then Some (gen_initial_angle NumF pi_f f)
+                 else if String.eqb p "/occupied_sites/0/x" then Some x
+                 else if String.eqb p "/occupied_sites/0/y" then Some y
+                 else if String.eqb p "/occupied_sites/0/angle" then Some a
+                 else None
+        | _ => None
+        end in
+      forallb (fun h => match expect h with Some v => feq (gh_value h) v | None => true end) (gs_handles s)
+  | None => false
+  end.
+
+Theorem probes_start_at_the_source_initial_state : forallb (starts_at_source gen_groups) gen_bounds = true.
+Proof. vm_compute. reflexivity. Qed.
